@@ -485,7 +485,7 @@ func runC07(e *sim.Env) {
 	for i := 0; i < steps; i++ {
 		e.Step()
 		v2ok := r.tip.Height+1 >= r.net.Allow()
-		op := e.Pick(8, 3, 3, 3, 2, 2, 2, 1, 2, 2, 2)
+		op := e.Pick(8, 3, 3, 3, 2, 2, 2, 1, 2, 2, 2, 2)
 		label := fmt.Sprintf("op%d", i)
 		switch op {
 		case 10: // fund while the wallet has not heard of the newest blocks yet
@@ -879,6 +879,36 @@ func runC07(e *sim.Env) {
 				}
 			}
 			e.Shape("foreign-pay")
+		case 11: // a v1 spend of one of the wallet's outputs reaches the pool from elsewhere
+			// (a second instance holding the same key, while v1 is still allowed)
+			if r.tip.Height+1 >= r.net.Require() {
+				continue
+			}
+			p := snapPool(e, "C07", r.s.cm)
+			for try := 0; try < 6; try++ {
+				tb := gen.NewTxBuilder(e, r.tip.L)
+				tb.Adopt(p.v1, p.v2)
+				n0 := len(tb.Txns)
+				tb.V1Pay()
+				if len(tb.Txns) == n0 {
+					continue
+				}
+				t := tb.Txns[len(tb.Txns)-1]
+				mine := len(t.SiacoinInputs) > 0
+				for _, in := range t.SiacoinInputs {
+					if in.UnlockConditions.UnlockHash() != r.me.Addr {
+						mine = false
+					}
+				}
+				if !mine {
+					continue
+				}
+				if _, err := r.s.cm.AddPoolTransactions([]types.Transaction{t}); err == nil {
+					e.Fault("v1-spend-of-wallet-output-pooled")
+					e.Shape("v1-spend-elsewhere")
+				}
+				break
+			}
 		}
 		r.agreement(label)
 	}
@@ -896,7 +926,7 @@ var _ = chain.ErrMissingBlock
 func init() {
 	register(&Prop{
 		ID: "C07", Run: runC07, Race: true, Flavour: "instrumented", Quick: 700, Thorough: 20000, Level: "exploration",
-		Rule:        "one run = drawn wallet options (defrag threshold 0-40, max inputs for defrag 0-40, max defrag outputs 0-12, reservation 1s-6h) and a chain that leaves the wallet with mature, immature, pool-spent and unconfirmed outputs; then 10-40 drawn operations: FundV2Transaction (0, 1H, exactly spendable, spendable+1H, drawn; with/without unconfirmed), sign+broadcast / keep outstanding / release, Redistribute, SplitUTXO, blocks confirming the pool, clock jumps around the reservation period, reorgs, restart (new manager with empty pool + new wallet on the same store re-loading broadcast sets), foreign payments into the pool, and 2-4 FundV2Transaction calls (in half of the cases together with a SplitUTXO) issued from concurrent goroutines (amounts that cannot all succeed; a seeded scheduler decides who proceeds at the store seam and, in the instrumented flavour, at every Lock / Unlock), whose results must be pairwise disjoint; after every operation: selection rules (owned, mature, unspent, not pool-spent, not reserved by an outstanding request), value conservation, failed calls change nothing, signed results accepted by the pool, and Balance().Spendable == sum(SpendableOutputs()) == independent model == largest fundable amount; distinct = abstract trace; non-trivial = a clock jump, reorg or restart",
+		Rule:        "one run = drawn wallet options (defrag threshold 0-40, max inputs for defrag 0-40, max defrag outputs 0-12, reservation 1s-6h) and a chain that leaves the wallet with mature, immature, pool-spent and unconfirmed outputs; then 10-40 drawn operations: FundV2Transaction (0, 1H, exactly spendable, spendable+1H, drawn; with/without unconfirmed), sign+broadcast / keep outstanding / release, Redistribute, SplitUTXO, blocks confirming the pool, clock jumps around the reservation period, reorgs, restart (new manager with empty pool + new wallet on the same store re-loading broadcast sets), foreign payments into the pool, v1 spends of the wallet's own outputs reaching the pool from elsewhere (before the require height), and 2-4 FundV2Transaction calls (in half of the cases together with a SplitUTXO) issued from concurrent goroutines (amounts that cannot all succeed; a seeded scheduler decides who proceeds at the store seam and, in the instrumented flavour, at every Lock / Unlock), whose results must be pairwise disjoint; after every operation: selection rules (owned, mature, unspent, not pool-spent, not reserved by an outstanding request), value conservation, failed calls change nothing, signed results accepted by the pool, and Balance().Spendable == sum(SpendableOutputs()) == independent model == largest fundable amount; distinct = abstract trace; non-trivial = a clock jump, reorg or restart",
 		Real:        []string{"wallet.SingleAddressWallet (funding, signing, redistribute, split, release, broadcast, restart)", "chain.Manager", "chain.DBStore"},
 		Stub:        []string{"wallet store: harness walletStore", "syncer: recording stub", "disk: simdisk.DB"},
 		Assumptions: []string{"a funded v2 transaction whose unconfirmed ancestry reaches a pooled v1 transaction (only between the allow and require heights, after a reorg un-confirmed the v1 parent of a pooled v2 transaction) cannot be submitted through the version-separated pool API; such cases are counted (probe funded_on_mixed_version_ancestry), not judged", "concurrent callers are interleaved at the wallet-store seam only (a seeded scheduling point inside the store call the wallet makes while holding its lock); in the lock-yield flavour every Lock / Unlock of the wallet's and the manager's mutexes is one too; other lock-level interleavings are not explored"},
